@@ -1,5 +1,83 @@
+import Agd.Model.BillStat
 import Agd.Driver.Util
-/-! Line-protocol driver for the C16 model (stub: not built yet). -/
+/-! Line-protocol driver for the C16 model (billing statistics recorder, serialised `Refresh`).
+
+Lines:
+* `init K`            – fresh recorder, devices `0 … K-1` are printed;          → `ok`
+* `rec d t c a p`     – `Record`;                                               → pending entry of `d`
+* `begin`             – `resetRecords` + entering `Upload`;                     → `blocked` | `batch …`
+* `ok i` / `fail i`   – the `i`-th in-flight upload returns nil / an error;     → `none` | `pend …`
+* `snap`              – pending table;                                          → `pend …`
+* `totals`            – ghost counters;                                         → `tot d:recorded:delivered …`
+-/
 namespace Agd.Driver.C16
-def main : IO Unit := Agd.Driver.loop (fun (s : Unit) _ => (s, "bad-op")) ()
+open Agd.BillStat Agd.Driver
+
+/-- Tabulated copy of the model state over devices `0 … k-1`.  The model keeps tables as
+functions (good for proofs); iterating `step` on them builds ever deeper closures, so the
+driver re-tabulates after every step and rebuilds shallow functions from the data. -/
+structure Tab where
+  pending : Array (Option Rec) := #[]
+  inflight : List (Array (Option Rec)) := []
+  recorded : Array Nat := #[]
+  delivered : Array Nat := #[]
+
+def ofArr (a : Array (Option Rec)) : Recs := fun d => (a[d]?).join
+def ofNat (a : Array Nat) : Dev → Nat := fun d => (a[d]?).getD 0
+
+def Tab.toSt (t : Tab) : St :=
+  { pending := ofArr t.pending,
+    inflight := t.inflight.map fun a => ⟨ofArr a, fun _ => none⟩,
+    recorded := ofNat t.recorded, delivered := ofNat t.delivered, last := fun _ => none }
+
+def Tab.ofSt (k : Nat) (s : St) : Tab :=
+  { pending := (Array.range k).map s.pending,
+    inflight := s.inflight.map fun b => (Array.range k).map b.recs,
+    recorded := (Array.range k).map s.recorded,
+    delivered := (Array.range k).map s.delivered }
+
+structure S where
+  k : Nat := 0
+  tab : Tab := {}
+
+def S.st (s : S) : St := s.tab.toSt
+def S.set (s : S) (st : St) : S := { s with tab := Tab.ofSt s.k st }
+
+def showRec (d : Nat) (r : Rec) : String :=
+  s!"{d}:{r.n}:{r.m.time}:{r.m.ctry}:{r.m.asn}:{r.m.proto}"
+
+def showRecs (k : Nat) (t : Recs) : String :=
+  " ".intercalate ((List.range k).filterMap fun d => (t d).map (showRec d))
+
+def tag (t body : String) : String := if body.isEmpty then t else t ++ " " ++ body
+
+def showTotals (k : Nat) (s : St) : String :=
+  tag "tot" (" ".intercalate ((List.range k).map fun d => s!"{d}:{s.recorded d}:{s.delivered d}"))
+
+def step (s : S) : List String → S × String
+  | ["init", k] => ({ k := nat! k, tab := Tab.ofSt (nat! k) St.init }, "ok")
+  | ["rec", d, t, c, a, p] =>
+    let st' := stepSer s.st (.record (nat! d) ⟨int! t, nat! c, nat! a, nat! p⟩)
+    (s.set st', tag "pend" (showRecs s.k (fun k => if k = nat! d then st'.pending k else none)))
+  | ["begin"] =>
+    if blocked s.st .begin then (s, "blocked")
+    else (s.set (stepSer s.st .begin), tag "batch" (showRecs s.k s.st.pending))
+  | ["ok", i] =>
+    match s.st.inflight[nat! i]? with
+    | none => (s, "none")
+    | some _ =>
+      let st' := stepSer s.st (.endOk (nat! i))
+      (s.set st', tag "pend" (showRecs s.k st'.pending))
+  | ["fail", i] =>
+    match s.st.inflight[nat! i]? with
+    | none => (s, "none")
+    | some _ =>
+      let st' := stepSer s.st (.endFail (nat! i))
+      (s.set st', tag "pend" (showRecs s.k st'.pending))
+  | ["snap"] => (s, tag "pend" (showRecs s.k s.st.pending))
+  | ["totals"] => (s, showTotals s.k s.st)
+  | _ => (s, "bad-op")
+
+def main : IO Unit := loop step {}
+
 end Agd.Driver.C16
